@@ -56,7 +56,9 @@ def draw_cfg(rng, profile=None):
     lik = workload.draw_lik_spec(
         rng, n_dim,
         family=profile.get('family'), blob=profile.get('blob'),
-        prior=profile.get('prior'), vectorized=profile.get('vectorized'))
+        prior=(rng.choice(profile['prior_choices'])
+               if 'prior_choices' in profile else profile.get('prior')),
+        vectorized=profile.get('vectorized'))
     if profile.get('blob_any') and lik['blob'] == 'none':
         lik['blob'] = rng.choice(workload.BLOBS[1:])
     n_live = rng.choice(profile.get('n_live', [20, 30, 40, 40, 60, 80]))
